@@ -117,6 +117,7 @@ def hypsB (K : Bytes) (db : DB) (t : Tape) (absent : List Bytes) : Bool :=
   | .error _ => false
   | .ok (avail, t0) =>
     Chain.nodupB (avail.map natToBytesMin) && avail.all (· > 0) &&
+    avail.all (· < arrayLen cfg db) &&                 -- `setup_never_raises`: a sample of range(1, |A|)
     match encDb cfg lv K (bytesFor (arrayLen cfg db)) db avail (List.replicate (arrayLen cfg db) none) t0 with
     | .error _ => false
     | .ok (L, _, _) =>
